@@ -167,6 +167,14 @@ func runLS2PL(c *core.Ctx) {
 					ok = true
 				}
 			}
+			// any spelling: the store is on the side of a condition on which the timed acquisition returned true
+			// (`if !acquire() { return }`, `if ok := acquire(); !ok { return }`, `if acquire() { hasLock = true }`)
+			if !ok {
+				ok = guardedWhere(g, s, func(ex ast.Expr, val bool) bool {
+					call, isCall := an.Unparen(an.ResolveLocal(info, fn.Body(), ex)).(*ast.CallExpr)
+					return isCall && val && an.IsMethodNamed(an.CalleeFunc(info, call), an.PkgResources, "LocalSharedManager", "acquireWithTimeout")
+				})
+			}
 			c.Check(ok, fmt.Sprintf("tryEnsureLock:hasLock#%d-only-after-acquire", i+1), s.Pos(), "hasLock is set only when acquireWithTimeout() returned true",
 				"hasLock is set without a successful acquireWithTimeout(): the section proceeds without mutual exclusion and Commit/Abort release a lock it does not hold")
 		}
@@ -251,12 +259,9 @@ func runLS2PL(c *core.Ctx) {
 			continue
 		}
 		for i, r := range rels {
-			guarded := false
-			for _, cd := range hasConds {
-				if g.GuardedBy(r, cd, true) {
-					guarded = true
-				}
-			}
+			heldLeaf := func(ex ast.Expr, val bool) bool { return val && an.SelectedField(info, ex) == hasLock }
+			guarded := guardedWhere(g, r, heldLeaf)
+			_ = hasConds
 			c.Check(guarded, fmt.Sprintf("%s:release#%d-only-if-held", key, i+1), r.Pos(), "release only under hasLock",
 				"release() is reachable although hasLock is false: it would steal the lock held by another archetype's open section")
 			after := false
@@ -274,10 +279,8 @@ func runLS2PL(c *core.Ctx) {
 			c.Check(!again.Found, fmt.Sprintf("%s:release#%d-once", key, i+1), r.Pos(), "released at most once per call", "release() can run twice in one call")
 			cleared := false
 			for _, cl := range clears {
-				for _, cd := range hasConds {
-					if g.GuardedBy(cl, cd, true) {
-						cleared = true
-					}
+				if guardedWhere(g, cl, heldLeaf) {
+					cleared = true
 				}
 			}
 			c.Check(cleared, fmt.Sprintf("%s:release#%d-clears-hasLock", key, i+1), r.Pos(), "hasLock is cleared on the releasing path",
@@ -361,14 +364,43 @@ func runLSTimed(c *core.Ctx) {
 	}
 	sendArm, timerArm, other := false, false, false
 	trueOutsideSend := false
+	// the variable through which the function reports its verdict when the arms do not return themselves: the named
+	// result, or the variable named by the returns outside the select
+	resVar := namedResult(fn, 0)
+	if resVar == nil {
+		ast.Inspect(fn.Body(), func(n ast.Node) bool {
+			if n == ast.Node(sel) {
+				return false
+			}
+			if r, ok := n.(*ast.ReturnStmt); ok && len(r.Results) == 1 {
+				if o := an.ObjOf(info, r.Results[0]); o != nil {
+					if _, isVar := o.(*types.Var); isVar {
+						resVar = o
+					}
+				}
+			}
+			return true
+		})
+	}
 	returnsIn := func(body []ast.Stmt, want bool) (all bool, any bool) {
 		all = true
 		for _, st := range body {
 			ast.Inspect(st, func(n ast.Node) bool {
-				if r, ok := n.(*ast.ReturnStmt); ok && len(r.Results) == 1 {
-					any = true
-					if !isBoolConst(info, r.Results[0], want) {
-						all = false
+				switch x := n.(type) {
+				case *ast.ReturnStmt:
+					if len(x.Results) == 1 {
+						any = true
+						if !isBoolConst(info, x.Results[0], want) {
+							all = false
+						}
+					}
+				case *ast.AssignStmt:
+					// `acquired = true` with `return acquired` after the select
+					if resVar != nil && len(x.Lhs) == 1 && len(x.Rhs) == 1 && an.ObjOf(info, x.Lhs[0]) == resVar {
+						any = true
+						if !isBoolConst(info, x.Rhs[0], want) {
+							all = false
+						}
 					}
 				}
 				return true
